@@ -983,7 +983,17 @@ def parse_text_cases(ctx, cases, stream):
         elif m_ok and a["ok"] != want:
             ctx.fail("corr:parse_text:ast-differs:%s:%s" % (e, PP.first_diff(want, a["ok"])),
                      "AST of Lean lexer+parser and Node.to_dict() differ", dict(det, model=str(a["ok"])[:400]), kind="correspondence")
-        elif (not m_ok) and not (a["err"].get("str_ok") and a["err"].get("dict") is not None):
+        elif (not m_ok) and kind == "syntax" and a["err"].get("stage") == "lex" and "lazy_pos" in a["err"]:
+            # a text with a LEXICAL error: the real parser pulls tokens lazily and may report an earlier grammatical error
+            # (ParseLazy.lean, Props/C01_lazy.lean). Positions of rejected texts are not part of the property: the agreement of
+            # the lazy and of the eager model with the reported position is only COUNTED (evidence), never a failure.
+            lz = ctx.extra.setdefault("lazy_window", {"texts_with_lexical_error": 0, "position_as_lazy_model": 0,
+                                                      "position_as_eager_model": 0, "lazy_reports_grammatical_error": 0})
+            lz["texts_with_lexical_error"] += 1
+            lz["position_as_lazy_model"] += int(real[1] == a["err"]["lazy_pos"])
+            lz["position_as_eager_model"] += int(real[1] == a["err"].get("pos"))
+            lz["lazy_reports_grammatical_error"] += int(a["err"].get("lazy_stage") == "parse")
+        if a is not None and (not m_ok) and not (a["err"].get("str_ok") and a["err"].get("dict") is not None):
             ctx.fail("corr:parse_text:model-render", "model rendering of the error position fails", dict(det, model=a), kind="correspondence")
 
 
